@@ -31,6 +31,7 @@ func (P *Prog) parseSet(g *modCG) map[*ssa.Function]bool {
 			roots = append(roots, fn)
 		}
 	}
+	roots = append(roots, P.providerMakers()...)
 	set := g.reachableFrom(roots)
 	// validate twins are reachable through the shared interface-dispatch approximation
 	// (invoke "process" resolves by name only to process methods, so nothing to prune) —
